@@ -1897,6 +1897,11 @@ class VM:
             # TypedArray.set(array, offset)
             source = args[0] if args else UNDEFINED
             offset = to_integer(args[1]) if len(args) > 1 else 0
+            count = source.length if isinstance(source, (JSArray, JSTypedArray)) else 0
+            # The whole source has to fit behind the offset: nothing is written
+            # otherwise
+            if offset < 0 or offset + count > arr.length:
+                raise JSRangeError("offset is out of bounds")
 
             if isinstance(source, (JSArray, JSTypedArray)):
                 # The source may be a view over the receiver's own buffer
